@@ -79,17 +79,19 @@ type Op struct {
 
 // Plan is everything that determines one simulated history.
 type Plan struct {
-	Ops         []Op     `json:"ops"`
-	Choices     []int    `json:"choices"`
-	CrashAt     []int    `json:"crashAt,omitempty"`     // scheduler steps at which the process dies and restarts
-	FaultAt     []int    `json:"faultAt,omitempty"`     // indexes (0-based) of InsertLogs calls that fail
-	ReadFaultAt []int    `json:"readFaultAt,omitempty"` // indexes (0-based) of store reads issued by requests that fail
-	CancelAt    [][2]int `json:"cancelAt,omitempty"`    // (op index, step) context cancellations
-	SlowStore   bool     `json:"slowStore,omitempty"`   // batch inserts complete late (see the scheduler)
-	CancelAfter [][2]int `json:"cancelAfter,omitempty"` // (op index, k): the caller of that request goes away when the request passes its k-th scheduling point
-	BatchSize   int      `json:"batchSize,omitempty"`   // 0 = production value
-	CacheSize   int      `json:"cacheSize,omitempty"`   // 0 = 1024
-	MaxSteps    int      `json:"maxSteps,omitempty"`
+	Ops               []Op     `json:"ops"`
+	Choices           []int    `json:"choices"`
+	CrashAt           []int    `json:"crashAt,omitempty"`           // scheduler steps at which the process dies and restarts
+	FaultAt           []int    `json:"faultAt,omitempty"`           // indexes (0-based) of InsertLogs calls that fail
+	ReadFaultAt       []int    `json:"readFaultAt,omitempty"`       // indexes (0-based) of store reads issued by requests that fail
+	CancelAt          [][2]int `json:"cancelAt,omitempty"`          // (op index, step) context cancellations
+	CloseAt           []int    `json:"closeAt,omitempty"`           // steps at which the running process is shut down gracefully (Commander.Close while requests are in flight), then restarted
+	CloseAfterHandoff [][2]int `json:"closeAfterHandoff,omitempty"` // (k, d): a graceful shutdown d steps after the k-th log was handed to the batcher
+	SlowStore         bool     `json:"slowStore,omitempty"`         // batch inserts complete late (see the scheduler)
+	CancelAfter       [][2]int `json:"cancelAfter,omitempty"`       // (op index, k): the caller of that request goes away when the request passes its k-th scheduling point
+	BatchSize         int      `json:"batchSize,omitempty"`         // 0 = production value
+	CacheSize         int      `json:"cacheSize,omitempty"`         // 0 = 1024
+	MaxSteps          int      `json:"maxSteps,omitempty"`
 	// DeathGrace: how many more steps requests that are already past their persistence wait may
 	// take after the batch runner died (a dying process does not stop its goroutines atomically).
 	DeathGrace int `json:"deathGrace,omitempty"`
@@ -161,6 +163,7 @@ type Result struct {
 	RevertTargets map[int]int64 // per revert request: the transaction id it actually named
 	Faults        int
 	ReadFaults    int
+	Closes        int
 	Cancels       int
 	// LeakedWorkers counts generations whose batch worker could not be stopped because the
 	// runner loop had died by a panic that was not a store failure.
@@ -179,6 +182,8 @@ type generation struct {
 	pool       *pond.WorkerPool
 	runCtx     context.Context
 	clients    []*clientInfo
+	closing    bool          // Commander.Close() has been called (graceful shutdown in progress)
+	closed     chan struct{} // closed when that call has returned
 }
 
 type clientInfo struct {
@@ -454,7 +459,7 @@ func (s *Sim) kill(g *generation) string {
 	s.mu.Lock()
 	g.dead = true
 	clients := append([]*clientInfo(nil), g.clients...)
-	runnerDead := g.runnerDead
+	runnerDead := g.runnerDead || g.closing // a commander that was closed gracefully has no runner loop any more
 	pool := g.pool
 	s.mu.Unlock()
 	for _, c := range clients {
@@ -701,8 +706,11 @@ func Run(t *testing.T, plan *Plan) (res *Result) {
 		if p := recover(); p != nil {
 			msg := fmt.Sprint(p)
 			if strings.Contains(msg, "deadlock: main bubble goroutine has exited") {
-				if res.LeakedWorkers > 0 {
-					return // expected: see LeakedWorkers
+				if res.LeakedWorkers > 0 || res.Closes > 0 {
+					// expected: see LeakedWorkers; after a graceful Close a request that still reaches the
+					// batcher blocks for ever in Runner.Next (nobody reads newJobsAvailable any more) -- the
+					// process exits in real life, here the goroutine is left behind
+					return
 				}
 				res.HarnessErr = "goroutines left blocked at the end of the case: " + msg
 				return
@@ -729,6 +737,9 @@ func runInBubble(plan *Plan, res *Result) {
 	}
 	next := 0
 	restarted := map[int]bool{}
+	closeUsed := map[int]bool{}
+	closeDyn := map[int]bool{}
+	handoffs := 0
 	grace := map[int]int{}
 	answered := func(i int) bool {
 		r := res.Responses[i]
@@ -796,6 +807,23 @@ func runInBubble(plan *Plan, res *Result) {
 				g.ch <- gateResult{}
 				continue
 			}
+		}
+		if (contains(plan.CloseAt, s.step) || closeDyn[s.step]) && !closeUsed[s.step] && !s.cur.closing && !runnerDead && !crashNow {
+			closeUsed[s.step] = true
+			// graceful shutdown: Close() is called while requests are in flight; they keep running (the
+			// server drains them) but no new request is accepted by this process
+			g := s.cur
+			s.mu.Lock()
+			g.closing = true
+			g.closed = make(chan struct{})
+			res.Closes++
+			s.event(g.id, -1, "close", "")
+			s.mu.Unlock()
+			go func() {
+				defer close(g.closed)
+				g.commander.Close()
+			}()
+			synctest.Wait()
 		}
 		if runnerDead || crashNow {
 			g := s.cur
@@ -868,6 +896,9 @@ func runInBubble(plan *Plan, res *Result) {
 				}
 			}
 		}
+		if s.cur.closing {
+			canSpawn = false // a process that is shutting down accepts no new request
+		}
 		if plan.SlowStore && len(enabled) > 0 {
 			// a slow store: while anything else can move, a batch insert completes only at the steps whose
 			// choice value is one of the three highest (so persistence lags behind the requests by many steps)
@@ -886,6 +917,34 @@ func runInBubble(plan *Plan, res *Result) {
 					enabled = others
 				}
 			}
+		}
+		if s.cur.closing && len(enabled) == 0 {
+			// everything that could finish has finished: the process exits; what is left blocked is lost
+			g := s.cur
+			hung := false
+			select {
+			case <-g.closed:
+			default:
+				// Close() waits for requests that will never finish (their batch was dropped by the
+				// shutdown): the operator's patience ends and the process is killed
+				hung = true
+			}
+			s.mu.Lock()
+			if hung {
+				s.event(g.id, -1, "close-hung", "")
+			}
+			s.event(g.id, -1, "exit", "")
+			res.CrashSteps = append(res.CrashSteps, s.step)
+			s.mu.Unlock()
+			if msg := s.kill(g); msg != "" {
+				res.HarnessErr = msg
+				return
+			}
+			if err := s.newGeneration(); err != nil {
+				res.HarnessErr = err.Error()
+				return
+			}
+			continue
 		}
 		n := len(enabled)
 		if canSpawn {
@@ -956,6 +1015,14 @@ func runInBubble(plan *Plan, res *Result) {
 					s.event(g.ci.gen.id, g.ci.id, "read-fault", g.point)
 				}
 				s.reads++
+			}
+			if g.point == "append.handedoff" {
+				handoffs++
+				for _, ch := range plan.CloseAfterHandoff {
+					if ch[0] == handoffs {
+						closeDyn[s.step+1+ch[1]] = true
+					}
+				}
 			}
 			if g.ci.id >= 0 {
 				for _, ca := range plan.CancelAfter {
